@@ -17,6 +17,11 @@ def handle (inp impl : Json) : CaseResult :=
   let wd : World := ⟨jbool inp "staked", jbool inp "allowed"⟩
   let o := scenario nodeWire wd
   let ops := jbool inp "ops"
+  let fate : TxFate := match jstr inp "ops_fault" with
+    | "revert" => .reverted
+    | "reject" => .rejected
+    | _ => .minedOk
+  let report := if opReportsSuccess fate then "balance-after" else "error"
   let m := mkObj [
     ("started", true),
     ("stake_reads_at", strs (o.stakeReadsAt.map tname)),
@@ -31,10 +36,10 @@ def handle (inp impl : Json) : CaseResult :=
     ("commit_matches_tx", true),
     ("provider_address_ok", true),
     ("engine_saw", o.engineSaw),
-    ("stake_tx_at", if ops then "provider-node:" ++ tname nodeWire.stakeOp ++ ".registerAndStake:requested-value" else ""),
-    ("prepay_tx_at", if ops then "bidder-node:" ++ tname nodeWire.prepayOp ++ ".prepay:requested-value" else ""),
-    ("stake_reported", if ops then "balance-after" else ""),
-    ("prepay_reported", if ops then "balance-after" else "")]
+    ("stake_tx_at", if ops && opTxSeen fate then "provider-node:" ++ tname nodeWire.stakeOp ++ ".registerAndStake:requested-value" else ""),
+    ("prepay_tx_at", if ops && opTxSeen fate then "bidder-node:" ++ tname nodeWire.prepayOp ++ ".prepay:requested-value" else ""),
+    ("stake_reported", if ops then report else ""),
+    ("prepay_reported", if ops then report else "")]
   let same (k : String) : Bool := (jobj impl k).compress == (jobj m k).compress
   let keys := ["started", "stake_reads_at", "allowance_reads_at", "other_reads", "stake_read_by", "allowance_read_by",
     "commit_txs_at", "commit_tx_from", "other_txs", "commitments", "commit_matches_tx", "provider_address_ok",
